@@ -243,6 +243,11 @@ def execute(call, insts=None, guard=None):
     st0, langs0 = copy.deepcopy(st), copy.deepcopy(langs)
     fm0, extra0 = copy.deepcopy(fm), copy.deepcopy(extra)
     now = datetime.now(timezone.utc).replace(tzinfo=None) if call["nobase"] else None
+    if call.get("as_instance") and st is not None:
+        # the settings argument may also be a Settings instance (documented alternative to a dict)
+        from dateparser.conf import settings as default_settings
+
+        st = st0 = default_settings.replace(**st) if st else default_settings
     try:
         if api == "parse":
             import dateparser
